@@ -1483,6 +1483,26 @@ class Generator:
             si = f[0][3]
             lo, hi = si[f[0][0]], si[f[0][1] - 1] + 1
             kv = dict(kv, **{"from": kv["match"], "to": "(end of match)"})
+        elif kv.get("to") == "@enclosing_end":
+            # from the anchor to the end of the innermost block that contains it (its closing brace excluded)
+            f = find_pattern(pieces, kv["from"])
+            if len(f) != 1:
+                raise ExtractError(f"{iid}: fragment anchor must match exactly once (matches {len(f)} times)")
+            si = f[0][3]
+            depth = 0
+            end = None
+            for k in range(f[0][0], len(si)):
+                t = pieces[si[k]]
+                if t.tkind == "punct" and t.text in OPEN:
+                    depth += 1
+                elif t.tkind == "punct" and t.text in CLOSE:
+                    depth -= 1
+                    if depth < 0:
+                        end = k
+                        break
+            if end is None:
+                raise ExtractError(f"{iid}: no enclosing block end after the anchor")
+            lo, hi = si[f[0][0]], si[end]
         else:
             f = find_pattern(pieces, kv["from"])
             t = find_pattern(pieces, kv["to"])
